@@ -727,6 +727,8 @@ var bodyShapes = []struct {
 	{"ipv6-full-notation-then-text", "2001:0db8:85a3:0000:0000:8a2e:0370:7334 (forwarded for 10.0.0.1)", "", 0},
 	{"ipv4-then-text", "192.0.2.44 is your address", "", 0},
 	{"five-octets", "192.0.2.44.5", "", 0},
+	{"ipv6-with-zone", "fe80::1%eth0\n", "", 0},
+	{"ipv6-global-with-zone", "2001:db8::7334%1", "", 0},
 	{"empty", "", "", 0},
 	{"html-page", "<html>" + strings.Repeat("x", 5000) + "192.0.2.44</html>", "", 0},
 }
